@@ -17,16 +17,16 @@ LEVEL = "exploration"
 RULE = ("case = one RunEngine execution of a seeded bundle sequence (8..40 steps over create/read/save/drop on two streams "
         "with fixed object sets, reads in varying order, reads outside a bundle, empty saves, drops) with illegal steps "
         "wrapped in try/except at marked positions: a read whose data keys overlap an object already in the bundle, a "
-        "checkpoint / configure / second create inside a bundle, a save without create; devices return a fresh value at "
+        "checkpoint / configure / second create inside a bundle, a save without create; saves that fail (fewer objects than the stream's descriptor; a later subscriber raising on the event) after which the plan carries on; devices return a fresh value at "
         "every read; oracle (sequential bundler model): every non-empty save emits exactly one event whose data and "
         "timestamps are the union of that bundle's readings, preceded by its stream's descriptor with the same key set, "
         "seq_nums per stream 1,2,3,...; drop and empty save emit nothing; every illegal step raises at its own yield "
         "(IllegalMessageSequence, ValueError for the key collision) and leaves the bundle as it was; distinct = (bundle "
         "shape sequence, illegal step kinds)")
-ASSUMPTIONS = ["a stream's object set is fixed by its first saved bundle (a changed set is a documented RuntimeError and is "
-               "not generated)"]
+ASSUMPTIONS = ["a stream's object set is fixed by its first saved bundle; a bundle with a different set fails at save with "
+               "RuntimeError and the bundle is over (next create starts from nothing)"]
 REQUIRED_COUNTERS = {"executions": 300, "events_checked": 600, "drops": 200, "empty_saves": 100, "illegal_steps": 400,
-                     "collisions": 80}
+                     "collisions": 80, "failed_saves": 60}
 MANIFEST = {
     "technique": "reference-model differential (30-line sequential bundler) against the real RunEngine/RunBundler on "
                  "seeded legal and illegal bundle sequences, readings tracked by value identity through the device ledger",
@@ -54,6 +54,7 @@ def build_steps(rng):
     steps = []
     cur = None
     read = []
+    saved = set()   # streams whose object set is fixed by an emitted event
     n = rng.randint(8, 40)
     while len(steps) < n:
         if cur is None:
@@ -82,13 +83,23 @@ def build_steps(rng):
             elif r < 0.24:
                 steps.append(("drop", None, None))
                 cur = None
+            elif todo and read and cur in saved and r < 0.32:
+                # fewer objects than the stream's descriptor has: the save fails (RuntimeError) and the bundle is over
+                steps.append(("save", None, "save-mismatched-objects"))
+                cur = None
             elif todo and (r < 0.9 or read):
                 o = rng.choice(todo)
                 read.append(o)
                 steps.append(("read", o, None))
             else:
                 # all objects of the stream read (-> a real event) or nothing read at all (-> an empty save)
-                steps.append(("save", None, None))
+                if read and rng.random() < 0.12:
+                    # a later subscriber raises on the event: the save raises after the event went out
+                    steps.append(("save", None, "subscriber-fails-on-event"))
+                else:
+                    steps.append(("save", None, None))
+                if read:
+                    saved.add(cur)
                 cur = None
     if cur is not None:
         steps.append(("drop", None, None))
@@ -108,6 +119,14 @@ def run_case(case):
             devs[nm] = Det(nm, h.log, delay=None, fn=lambda c=ctr: float(next(c)))
             devs["x_" + nm] = Det("x_" + nm, h.log, delay=None, fn=lambda c=ctr: float(next(c)), extra_keys=[nm])
         outcomes = []
+        fail_event = {"on": False}
+
+        def late_subscriber(name, doc):   # registered after the harness' recorder
+            if name == "event" and fail_event["on"]:
+                fail_event["on"] = False
+                raise RuntimeError("subscriber failed on event")
+
+        h.RE.subscribe(late_subscriber)
 
         def plan():
             yield Msg("open_run")
@@ -121,6 +140,7 @@ def run_case(case):
                 else:
                     m = Msg(op)
                 h.log.append(("plan", "step", k, m))
+                fail_event["on"] = illegal == "subscriber-fails-on-event"
                 try:
                     yield m
                     outcomes.append((k, "ok", None))
@@ -133,7 +153,8 @@ def run_case(case):
         log = h.log
         # ---- model ---------------------------------------------------------------------------------
         problems = []
-        counters = {"executions": 1, "events_checked": 0, "drops": 0, "empty_saves": 0, "illegal_steps": 0, "collisions": 0}
+        counters = {"executions": 1, "events_checked": 0, "drops": 0, "empty_saves": 0, "illegal_steps": 0, "collisions": 0,
+                    "failed_saves": 0}
         if r[0] != "ret":
             problems.append((f"call-failed:{type(r[1]).__name__}", repr(r[1])))
         step_idx = {e[2]: j for j, e in enumerate(log) if e[0] == "plan" and e[1] == "step"}
@@ -152,6 +173,20 @@ def run_case(case):
             events = [e[2] for e in window if e[0] == "doc" and e[1] in ("event", "event_page")]
             op, arg, illegal = steps[k]
             st, exc = oc.get(k, ("missing", None))
+            if illegal == "subscriber-fails-on-event":
+                counters["failed_saves"] += 1
+                if st != "exc" or not isinstance(exc, RuntimeError):
+                    problems.append(("subscriber-error-not-raised-at-save", f"step {k}: {st} {exc!r}"))
+                st, illegal = "ok", None   # the event itself went out and is judged like any other
+            elif illegal == "save-mismatched-objects":
+                counters["failed_saves"] += 1
+                if st != "exc" or not isinstance(exc, RuntimeError):
+                    problems.append(("mismatched-bundle-accepted", f"step {k}: {st} {exc!r}"))
+                if events:
+                    problems.append(("mismatched-bundle-emitted-event", f"step {k}"))
+                cur, bundle = None, []
+                shapes.append("M")
+                continue
             if illegal:
                 counters["illegal_steps"] += 1
                 counters["collisions"] += int(illegal == "key-collision")
